@@ -289,6 +289,15 @@ func init() {
 				case 4:
 					cs = append(cs, valrelCase(r, a, vg.gen(t, true), "random"))
 				}
+				// a value referenced twice (a DAG, not a cycle) against two separate copies
+				if i%7 == 0 && a.Type.Kind.IsComposite() {
+					lt := types.List(a.Type).List()
+					shared := val.List(lt, 0).List()
+					shared.V = []*val.Val{a, a}
+					sep := val.List(lt, 0).List()
+					sep.V = []*val.Val{copyVal(r, a, false), copyVal(r, a, false)}
+					cs = append(cs, valrelCase(r, shared.Vl(), sep.Vl(), "shared"))
+				}
 			}
 			// numbers: the boundary pool against itself
 			for _, x := range hostNumPool {
